@@ -99,7 +99,7 @@ func coordAlts(r *hx.Rng, okp bool, n int) []Alt {
 	out := []Alt{
 		{"sub", r.Intn(n), byte(r.Intn(255))},
 		{"sub", 0, byte(r.Intn(255))},
-		{"ins", n, byte(r.Intn(256))},         // appended byte
+		{"ins", n, byte(r.Intn(256))},             // appended byte
 		{"ins", 1 + r.Intn(n), byte(r.Intn(256))}, // inserted inside
 		{"del", r.Intn(n), 0},
 		{"del", n - 1, 0},
@@ -250,7 +250,9 @@ func (e *env) runKW(kind, kt string, nKeys int) {
 					su = r.Intn(3)
 				}
 
-				lens := []int{16, 32, 64, 0, 8, 24, 33}
+				// not 0: go-jose's AES key wrap of an EMPTY key is the constant IV block, independent of the kek (RFC 3394 is defined
+				// for n >= 2 blocks) - every context "unwraps" it to the empty key; outside the ideal key wrap's domain
+				lens := []int{16, 32, 64, 8, 24, 33, 40}
 				if pu && !xc {
 					lens = []int{32, 48, 64, 32, 48, 64, 16, 40}
 				}
